@@ -1,0 +1,16 @@
+//go:build !verif
+
+package app
+
+import (
+	"time"
+
+	"github.com/f1bonacc1/process-compose/src/command"
+)
+
+// Verification hooks (build tag "verif"): without the tag they are empty and inlined away.
+
+func verifPoint(_ *Process, _ string, _ ...interface{})        {}
+func verifPointR(_ *ProjectRunner, _ string, _ ...interface{}) {}
+func verifCommander(_ *Process) command.Commander              { return nil }
+func verifBackoff(_ *Process, _ int) (time.Duration, bool)     { return 0, false }
